@@ -427,6 +427,31 @@ func reachableBlock(from, to *ssa.BasicBlock) bool {
 	return false
 }
 
+// naturalLoop returns the natural loop of header h (blocks dominated by h that reach one of h's back edges), nil if h is not a loop header.
+func naturalLoop(h *ssa.BasicBlock) map[*ssa.BasicBlock]bool {
+	var latches []*ssa.BasicBlock
+	for _, p := range h.Preds {
+		if h.Dominates(p) {
+			latches = append(latches, p)
+		}
+	}
+	if len(latches) == 0 {
+		return nil
+	}
+	loop := map[*ssa.BasicBlock]bool{h: true}
+	work := latches
+	for len(work) > 0 {
+		b := work[len(work)-1]
+		work = work[:len(work)-1]
+		if loop[b] {
+			continue
+		}
+		loop[b] = true
+		work = append(work, b.Preds...)
+	}
+	return loop
+}
+
 // inLoop reports whether a block lies on a CFG cycle.
 func inLoop(b *ssa.BasicBlock) bool { return reachableBlock(b, b) }
 
